@@ -52,8 +52,8 @@ def parse_unified(diff_text: str) -> List[Tuple[str, List[Tuple[List[str], List[
             continue
         if line.startswith("+++ "):
             p = line[4:].split("\t")[0].strip()
-            if p.startswith("b/"):
-                p = p[2:]
+            if p.startswith(("b/", "a/")):
+                p = p[2:]  # (a reversed diff, `git diff -R`, names the new side a/)
             if cur_path is not None and hunks:
                 files.append((cur_path, hunks))
                 hunks = []
